@@ -39,5 +39,24 @@ func Addresses() []string { return lines(addresses) }
 // UnpackInputs are byte strings for gen.DecodeFuzzEntries kept by FuzzUnpack.
 func UnpackInputs() []string { return lines(unpack) }
 
-// Manifests are manifest documents kept by FuzzOpenDir.
-func Manifests() []string { return lines(opendir) }
+// handWritten are manifest documents with null / wrongly typed members at
+// every level, which a mutation-based search reaches only by luck.
+var handWritten = []string{
+	`{"terraform_source_bundle":1,"registry":[null]}`,
+	`{"terraform_source_bundle":1,"packages":[null]}`,
+	`{"terraform_source_bundle":1,"packages":[null,{"source":"git::https://example.com/a.git","local":"abc"},null],"registry":[null,null]}`,
+	`{"terraform_source_bundle":1,"registry":[{"source":"example.com/ns/m/sys","versions":null}]}`,
+	`{"terraform_source_bundle":1,"registry":[{"source":"example.com/ns/m/sys","versions":{"1.0.0":null}}]}`,
+	`{"terraform_source_bundle":1,"registry":[{"source":"example.com/ns/m/sys","versions":{"1.0.0":{"source":null,"deprecation":null}}}]}`,
+	`{"terraform_source_bundle":1,"registry":[{"source":null,"versions":{}}]}`,
+	`{"terraform_source_bundle":1,"packages":[{"source":null,"local":null,"meta":null}]}`,
+	`{"terraform_source_bundle":1,"packages":[{"source":"git::https://example.com/a.git","local":"abc","meta":{"git_commit":null,"git_commit_message":null}}]}`,
+	`{"terraform_source_bundle":1,"packages":{},"registry":{}}`,
+	`{"terraform_source_bundle":1,"packages":"x","registry":7}`,
+	`{"terraform_source_bundle":null}`, `null`, `[]`, `[null]`, `{"terraform_source_bundle":1,"packages":[[]],"registry":[[]]}`,
+	`{"terraform_source_bundle":1,"registry":[{"source":"example.com/ns/m/sys","versions":{"1.0.0":{"source":"git::https://example.com/a.git","deprecation":{"reason":null,"link":null}}}}]}`,
+	`{"terraform_source_bundle":1,"registry":[{"source":"example.com/ns/m/sys","versions":{"":{"source":"git::https://example.com/a.git"},"v":{"source":""}}}]}`,
+}
+
+// Manifests are manifest documents kept by FuzzOpenDir, plus hand-written ones.
+func Manifests() []string { return append(append([]string{}, handWritten...), lines(opendir)...) }
